@@ -337,7 +337,7 @@ func (r *runner) waitSinks(ids map[string]bool, settle bool) {
 		for i := range d.froms {
 			k := sinkKey(id, i)
 			for n := 0; ; n++ {
-				if r.tm.Rec.Len(k) >= r.expected[k] {
+				if len(r.tm.Rec.Get(k)) >= r.expected[k] {
 					break
 				}
 				if time.Now().After(deadline) {
